@@ -37,6 +37,16 @@ TRUSTED_EXTRA = [
     "proves the discipline only for its own task-level pool",
 ]
 
+ANOMALIES = {
+    901: 'malformed Parse message', 902: 'a second connection was opened before the first one was handed out',
+    903: 'a client did not notice the hang-up of its server', 904: 'get() opened a connection but returned a known client',
+    905: 'get() returned a client the harness has never seen and no connection was opened',
+    906: 'the same client was handed out twice', 907: 'get() opened a connection and failed',
+    908: 'prepare returned a statement whose parameter types are not the ones asked for',
+    909: 'the scripted server did not hang up', 910: 'an unknown client is in the idle queue',
+    911: 'a connection exists whose client was never handed out',
+}
+
 LNAMES = {0: 'get', 1: 'return', 2: 'take', 3: 'resize', 4: 'close', 5: 'retain', 6: 'prepare', 7: 'prepare x2',
           8: 'cache.clear', 9: 'cache.remove', 10: 'registry.clear', 11: 'registry.remove', 12: 'arm query',
           13: 'arm parse', 14: 'arm connect', 15: 'server hangs up'}
@@ -74,8 +84,8 @@ def ensure_coq(files=MODEL_FILES, project='_CoqProject.pg', makefile='Makefile.p
 # ------------------------------------------------------------------ harness
 def batches(tier):
     if tier == 'thorough':
-        return [('mixed', 6000, 70), ('cache', 4000, 60), ('recycle', 5000, 70)]
-    return [('mixed', 500, 45), ('cache', 300, 40), ('recycle', 400, 45)]
+        return [('mixed', 9000, 70), ('cache', 6000, 60), ('recycle', 9000, 70)]
+    return [('mixed', 900, 45), ('cache', 600, 40), ('recycle', 900, 45)]
 
 
 def gen_traces(seed, profile, n, maxlabels):
@@ -179,7 +189,7 @@ def monitor_trace(t, P):
         k = l[0]
         c = l[1] if len(l) > 1 else 0
         if d['anom']:
-            return i, 'harness anomaly %s' % d['anom']
+            return i, '; '.join(ANOMALIES.get(a, 'harness anomaly %d' % a) for a in d['anom'])
         by_conn = {}
         for m in d['msgs']:
             by_conn.setdefault(m[0], []).append(m)
